@@ -2173,3 +2173,91 @@ def compress_options(cx):
 
         cx.check("tensor_network_1d_compress options (site_tags order, canonize=False, permute_arrays): identity, cap, centre at "
                  "site_tags[0] / [-1]", po, t_opts)
+
+
+# ----------------------------------------------------------------------------------------------
+# expectation values with one info record threaded through several calls
+# ----------------------------------------------------------------------------------------------
+
+
+@driver("C09", "expectations-with-a-threaded-record", chunks=2, timeout=200,
+        bound="open MPS of 3..7 sites, bond <= 4, site dims 2..3, float64 / complex128, NOT canonical and not normalised; one "
+              "info dict ({} or a true record after canonicalize_) handed to 2..4 successive calls drawn from "
+              "compute_local_expectation(method='canonical', inplace False/True), local_expectation_canonical, "
+              "partial_trace_to_dense_canonical, canonicalize: every value equals <psi|G|psi> / <psi|psi> of the dense state "
+              "(1e-9) and the state the caller holds is unchanged")
+def threaded_record(cx):
+    import quimb.tensor as qtn
+
+    rng = cx.rng
+    ncase = 40 if cx.quick else 400
+    for i in range(ncase):
+        L = int(rng.integers(3, 8))
+        d = int(rng.integers(2, 4))
+        cplx = bool(rng.integers(0, 2))
+        start = ("empty", "record")[int(rng.integers(0, 2))]
+        ncalls = int(rng.integers(2, 5))
+        plan = []
+        for _ in range(ncalls):
+            kind = ["compute", "compute", "local", "ptrace", "canonicalize"][int(rng.integers(0, 5))]
+            k = int(rng.integers(1, 3))
+            a = int(rng.integers(0, L - k + 1))
+            where = tuple(range(a, a + k))
+            if k == 2 and rng.integers(0, 2):
+                where = where[::-1]
+            plan.append((kind, where, bool(rng.integers(0, 2)), int(rng.integers(1 << 30))))
+        seed = int(rng.integers(1 << 30))
+        if not cx.mine():
+            continue
+
+        def t(L=L, d=d, cplx=cplx, start=start, plan=plan, seed=seed):
+            r = np.random.default_rng(seed)
+            psi = qtn.MPS_rand_state(L, 4, phys_dim=d, dtype="complex128" if cplx else "float64", normalize=False,
+                                     seed=int(r.integers(1 << 30)))
+            for t_ in psi:  # destroy any accidental gauge and the normalisation
+                t_.modify(data=t_.data * r.uniform(0.5, 1.5) + 0.05 * r.normal(size=t_.shape))
+            info = {}
+            if start == "record":
+                psi.canonicalize_(int(r.integers(L)), info=info)
+            dense = np.asarray(psi.to_dense()).reshape(-1)
+            n2 = float(np.vdot(dense, dense).real)
+            dims = [d] * L
+
+            def ref(G, where):
+                return complex(np.vdot(dense, _embed(G, dims, list(where)) @ dense)) / n2
+
+            for step, (kind, where, inplace, s2) in enumerate(plan):
+                rr = np.random.default_rng(s2)
+                k = len(where)
+                G = rr.normal(size=(d ** k, d ** k)) + (1j * rr.normal(size=(d ** k, d ** k)) if cplx else 0)
+                tag = f"step {step} ({kind} at {where}, info threaded from the earlier calls): "
+                if kind == "compute":
+                    got = psi.compute_local_expectation({where: G}, method="canonical", info=info, inplace=inplace,
+                                                        normalized=True)
+                    want = ref(G, where)
+                elif kind == "local":
+                    got = psi.local_expectation_canonical(G, where, info=info, normalized=True)
+                    want = ref(G, where)
+                elif kind == "ptrace":
+                    sw = tuple(sorted(where))
+                    rho = np.asarray(psi.partial_trace_to_dense_canonical(sw, info=info, normalized=True))
+                    full = np.outer(dense, dense.conj()) / n2
+                    want_rho = _ptrace(full, dims, list(sw))
+                    if rho.shape != want_rho.shape or np.abs(rho - want_rho).max() > 1e-9:
+                        return tag + f"reduced state differs from the dense partial trace by {np.abs(rho - want_rho).max():.3g}"
+                    continue
+                else:
+                    psi.canonicalize_(where, info=info)
+                    now = np.asarray(psi.to_dense()).reshape(-1)
+                    if np.abs(now - dense).max() > 1e-9 * max(1.0, np.abs(dense).max()):
+                        return tag + "canonicalize_ changed the state"
+                    continue
+                if abs(complex(got) - want) > 1e-9 * max(1.0, abs(want)):
+                    return tag + f"got {complex(got):.6g}, dense reference {want:.6g}"
+            now = np.asarray(psi.to_dense()).reshape(-1)
+            if np.abs(now - dense).max() > 1e-9 * max(1.0, np.abs(dense).max()):
+                return "the state the caller holds changed"
+            return None
+
+        cx.check("MPS expectation values / reduced states with one info record threaded through successive calls == dense "
+                 "values", dict(i=i, L=L, d=d, cplx=cplx, start=start, calls="-".join(p[0] for p in plan)), t)
